@@ -114,3 +114,9 @@ def cases(tier, seed, ctx=None):
         reqs = [[path, []], [1, [ent(n, isd) for n, isd in added], [b"root/" + sub + n for n, isd in removed if not isd]], [path, []], [path, []]]
         metas = [listing(names0), [0], listing(after), listing(after)]
         yield ("fsm", [tree, b"@BASE@/root", reqs, ver, metas], "listing-after-change")
+    # files that a MIME sniffer calls text and that contain CR bytes (DOS line ends, lone CRs): served byte for byte, whole and ranged
+    for name, cnt in ((b"dos.txt", b"line one\r\nline two\r\n\r\nend\r"), (b"export.csv", b"a,b\r\n1,2\r\n" * 6), (b"README", b"title\r\n=====\r\n"),
+                      (b"mixed.txt", b"\r\r\n\n\rX"), (b"page.html", b"<p>\r\n</p>\r\n")):
+        tree = [[b"root/" + name, 0, cnt]]
+        for sp in (None, b"bytes=0-3", b"bytes=5-", b"bytes=-4", b"bytes=9-12"):
+            yield ("fs", [tree, b"@BASE@/root", name, [] if sp is None else [[b"Range", sp]], ver, [8, 0, cnt]], "text-with-CR")
